@@ -485,5 +485,7 @@ def execute(stim):
         signal.signal(signal.SIGTERM, old)
     # blocks that are not sequential (cb) have no start/stop records: not counted
     hdr = {'blocks': [{'async': h['async'], 'tmo': h['tmo'], 'sd': h['sd']} for h in result['hdr']], 'api': stim['api'],
+           # blocking code in clean-up routines: no timeout can interrupt it
+           'busy': sum(c.get('busytail') or 0 for c in stim['blocks']),
            'check': stim.get('check', '')}
     return {'hdr': hdr, 'ev': lines}
